@@ -62,8 +62,8 @@ CHECKS = {
             "(opened/failed/never), inbound substreams, force-close and keep-alive downgrades; every protocol's TransportService stream must match "
             "(Established (SubstreamOpened|SubstreamOpenFailure)* Closed)* per peer, ids are never reused across protocols, every answered request yields exactly "
             "one correctly routed event, requests are accepted while connected, and the manager never reports the peer closed before a protocol saw the close.",
-            "Scripted connections mirror TcpConnection::start() (trusted base).",
-            "DESIGN.md §3 C08"),
+            "Scripted connections mirror TcpConnection::start(); connection events are judged by a reference model over an order log of the reports sent and the events emitted; a directed scenario (full protocol channel) decides 'protocols before the manager'. Node level: open storms of 40-420 requests on real nodes with a remote stalled by the proxy: every accepted request answered exactly once unless the peer is reported closed.",
+            "DESIGN.md §3 C08, §11"),
     "C09": ("exploration",
             "close-instant window monitor on scripted connections in real time with 20/60 ms keep-alive timeouts (layer a; TransportService timers read std::time::Instant, so virtual time cannot be used)",
             "The scripted connection records the instant at which every protocol released it; oracle: never earlier than (last keep-alive activity, timestamped "
